@@ -570,6 +570,16 @@ func (a *Agent) handleUDPOpenAck(peerID identity.AgentID, frame *protocol.Frame)
 	dest := lookup.Dest
 	a.udpIngressMu.RUnlock()
 
+	// The key agreement runs once. A repeated UDP_OPEN_ACK would run it again
+	// with the ephemeral private key that was zeroed after the first one and
+	// replace the session key by one derived from public values only.
+	dest.mu.RLock()
+	established := dest.SessionKey != nil
+	dest.mu.RUnlock()
+	if established {
+		return
+	}
+
 	ack, err := protocol.DecodeUDPOpenAck(frame.Payload)
 	if err != nil {
 		return
